@@ -122,12 +122,17 @@ def run(ctx):
         "property_predicate_failures": sorted(summ["propfail"]),
         "samples": summ["samples"][:6],
         "exhaustive": False,
-        "float_bound": "relative max(n,1)*2^-50, n = number of messages on the bus (per-message rate: 2^-50); TESTED on every call, NOT proved",
-        "proved_vs_tested": "proved (Coq, axiom-free): the 18 theorems of Properties/C17.v about the exact-rational model. tested on this run, not proved: "
-                            "that Go's float64 figures stay within the bound of the exact ones, and that the model restates utils.go correctly",
+        "float_bound": "relative max(n,1)*2^-50, n = number of messages on the bus (per-message rate: 2^-50); checked on every call; for the load "
+                       "it is also PROVED (load_float_close) for the modelled IEEE-754 operation order on float_domain",
+        "proved_vs_tested": "proved, axiom-free: 19 theorems of Properties/C17.v about the exact-rational model. proved with the standard-library "
+                            "real-number axioms (through Flocq): load_float_close, the float64 error bound of the load w.r.t. IEEE-754 binary64 "
+                            "semantics for Go's operation order. trusted: Go's float64 is IEEE-754 binary64 round-to-nearest-even, int->float64 exact "
+                            "below 2^53. tested on this run, not proved: the bound for the per-message rates and shares, and that the two models "
+                            "restate utils.go (the exact model is compared call by call; the float model is tied by one bit-exact Example)",
         "degenerate_calls_not_compared": int((re.search(r"DEGENERATE-CALLS-NOT-COMPARED (\d+)", mlog) or [0, 0])[1]),
         "trusted_base": [
-            "Coq 8.16.1 kernel (coqc; coqchk in the thorough tier); vm_compute only in one closed Example",
+            "Coq 8.16.1 kernel (coqc; coqchk in the thorough tier); vm_compute only in closed Examples / refuted witnesses",
+            "Flocq 4 (IEEE754.Binary/Bits, Relative, Plus_error) for load_float_close; its axioms are the standard-library ones reported below",
             "axioms: none (Print Assumptions: Closed under the global context)" if not status["axioms"] else "axioms: " + ", ".join(status["axioms"]),
             "extraction (ExtrOcamlBasic only, no Extract Constant/Inductive of our own) + OCaml 4.13.1 + props/C17/driver/c17_driver.ml (zarith Z/Q for I/O and the bound comparison)",
             "Go harness props/C17/harness/main.go (generators, math/big exact conversion of float64, the documented formula recomputed with big.Rat, predicates)",
@@ -137,7 +142,8 @@ def run(ctx):
     ctx.assumptions = [
         "monotonicity (enlarge a message / shorten a cycle) is proved and holds for 0 < baud only: for a negative baud rate (accepted by Bus.SetBaudrate) it is refuted (monotone_negative_baud_refuted, open findings c17-*-negative-baud); for baud = 0 the load stays 0; the harness checks all three classes",
         "shares are stated for a non-zero total rate only (entries_spec); on the property's domain a message makes the total positive (total_nonzero); an undefined bus type with only empty messages gives total 0 and NaN shares in Go (shares_unknown_type_refuted, open finding c17-nan-unknown-bus-type)",
-        "float64 arithmetic of CalculateBusLoad is compared with the exact rational model within max(n,1)*2^-50 (not proved); the theorems are about the exact model",
+        "Go's float64 arithmetic is IEEE-754 binary64 round-to-nearest-even and int->float64 is exact below 2^53 (trusted; load_float_close is about Flocq's semantics of exactly the operation order of utils.go)",
+        "the per-message rates and shares are compared with the exact model within the stated bound on every call but that bound is not proved (only the load's is)",
         "bus type is BusTypeCAN2A (the only constant the library defines); sizes 0..8, cycle times >= 0, as the property states",
         "map iteration order is an oracle: the model visits the messages in creation order, the theorems hold for every order (load_order_free, each_message_once)",
     ]
